@@ -85,8 +85,23 @@ func init() {
 				k.MaxDepth = 7
 			}
 			w, info := chainWorld(r, i, o.seed, k)
+			label := ""
+			if i%25 == 24 {
+				// a chain through an issuer WITHOUT a key: its token is acceptable only with the authority's attestation
+				// for exactly that token (an attestation for another token, by a stranger, expired, or none at all is not)
+				so := sessOpts{Attested: pick(r, []string{"this", "this", "other", "none"}), AttIssuer: pick(r, []string{"authority", "authority", "delegate", "stranger"}),
+					Resource: pick(r, []string{"authority", "authority", "other"}), Window: pick(r, []string{"valid", "valid", "expired"}),
+					Pos: r.Intn(3), Resolver: pick(r, []string{"absent", "absent", "correct", "wrong"}), ParentProof: r.Intn(6), Decoys: r.Intn(3)}
+				var sl string
+				w, sl = sessionWorld(o.seed, i, so)
+				w.ID = i
+				info = chainInfo{Depth: so.Pos, Decoys: so.Decoys}
+				label = "session " + sl
+			}
 			st.addChain(info)
-			label := fmt.Sprintf("depth=%d defects=%s", info.Depth, strings.Join(info.Defects, ","))
+			if label == "" {
+				label = fmt.Sprintf("depth=%d defects=%s", info.Depth, strings.Join(info.Defects, ","))
+			}
 			c, _, err := runAndRender(w, st, label)
 			if err != nil {
 				return err
